@@ -22,6 +22,7 @@ from sa.terms import T
 from sa.pyfront import Program
 
 RULES = {
+    "R-C16-g": "the result does not depend on which thread runs a task: no attribute of a threading.local() is read on the evaluation path unless the same function assigns it (a value set at import time or by the calling thread does not exist in a pool worker)",
     "R-C16-f": "the compiled kernels called from the tasks write only buffers allocated inside the same call (no module-level / `global` workspace shared by the pool threads, whose merge loops run without the GIL)",
     "R-C16-a": "every write inside a pool task is task-local, reached through region[tuple(flattened_slice)] with a task-argument-only index, or a named diagnostic",
     "R-C16-b": "whole-region (unpartitioned) access happens only when there is exactly one task; block coordinates are the concatenation of the task's own coordinates",
@@ -392,6 +393,17 @@ def main(tier):
         kn += 1
         rep.add("R-C16-f", where, cons, status, detail, True, {"history": "pooled ccube evaluation with poolsize >= 2: two tasks intersect into the same workspace at once and one receives the other's row ids"} if status == "VIOLATED" else None)
     rep.floor("R-C16-f", 4, kn)
+    # R-C16-g: nothing on the tasks' path depends on WHICH thread runs it: no threading.local attribute that only the
+    # importing / calling thread has (sa/tls.py).  Zero thread-locals are expected on today's tree.
+    from sa import tls
+    finds, inv = tls.scan(prog)
+    for kind, where, cons, detail in finds:
+        if kind == "undecided":
+            rep.undecided("R-C16-g", where, cons, detail)
+        else:
+            rep.violated("R-C16-g", where, cons, detail, witness={"schedule": "any pooled evaluation (every pool size, every schedule): the worker thread is not the thread that set the attribute; serial evaluation on the main thread is unaffected"})
+    if not finds:
+        rep.proved("R-C16-g", "ccubes, xcubes, ffuncs, xfuncs", "no thread-local state on the evaluation path", "%d threading.local objects in the four modules" % inv)
     slices1d_rule(prog, rep)
     n = rep.floors.pop("R-C16-a", (0, 0))
     rep.floor("R-C16-a", n[0], n[1])
